@@ -342,7 +342,11 @@ def run_sched(case):
         P.sqlite3 = PSqlite()
         P.os = POs()
         plain = Path(folder)
-        alias = Path(folder) / "alt" / ".."          # same file, different key in parse.initialized_dbs
+        # same file, but a different key in parse.initialized_dbs for every initialising call: calls are
+        # independent like calls of different processes (the in-process skipping of the check by a
+        # later thread is exercised by the thread stress)
+        def alias(i):
+            return Path(folder) / ("alt%d" % i) / ".."
         P.parse.initialized_dbs = {plain / P.DEFAULT_MODEL_CACHE_DB}
         calls = []
         threads = []
@@ -351,7 +355,7 @@ def run_sched(case):
             CTL.calls[threading.get_ident()] = call
             try:
                 t = P.parse(texts[spec["text"]],
-                            model_cache_folder=(alias if spec["init"] else plain),
+                            model_cache_folder=(alias(call.cid) if spec["init"] else plain),
                             always_update_last_hit=bool(spec["upd"]))
                 call.result = ["ok", "none" if t is None else dump(t)]
             except BaseException as e:  # noqa
@@ -509,11 +513,12 @@ def _stress_worker(folder, texts, order, bar, out, i):
     try:
         bar.wait(30)
         for ti in order:
+            t0 = time.time()
             try:
                 t = P.parse(texts[ti], model_cache_folder=Path(folder))
-                res.append([ti, "ok", "none" if t is None else dump(t)])
+                res.append([ti, "ok", "none" if t is None else dump(t), round(time.time() - t0, 2)])
             except BaseException as e:  # noqa
-                res.append([ti, "exc", type(e).__name__ + ": " + str(e)[:100]])
+                res.append([ti, "exc", type(e).__name__ + ": " + str(e)[:100], round(time.time() - t0, 2)])
     finally:
         out.put((i, res))
 
